@@ -96,6 +96,22 @@ check('C13', 'seed enumeration on the real hextb + Hypothesis-drawn planted adve
       'Power-on space sampled through randReset seeds and planted states; reset window = first five rising edges.',
       'DESIGN.md 6 C13')
 
+check('C11', 'Hypothesis-generated sources; self-differential under planted heap contents, preceding compilations and host configurations',
+      'The same source is compiled/assembled in-process under heap fills 0x00/0xA5/0xFF (replaced operator new), after an unrelated compilation, and plain; and by the '
+      'real executables under ASLR on/off x environment sizes x MALLOC_PERTURB_: binaries, listings and --tree must be byte-identical.',
+      'Samples the dimensions the property names; an indeterminate read that neither fills nor perturbation reach is invisible.',
+      'DESIGN.md 6 C11')
+check('C12', 'Hypothesis-generated images incl. dirty-read programs; placement-new into pre-filled storage, host configurations, agreement with the zero-memory ISA reference',
+      'hexsim::Processor is constructed in storage filled with 0x00/0xA5/0xFF/pattern and must give the same run as the ISA reference from zeroed memory; the real executable '
+      'is run under ASLR on/off x environment sizes; --max-cycles cuts and -t (system-call sequence, status, input) are compared across all of them.',
+      'A cut run has no prescribed status, only a repeatable one.',
+      'DESIGN.md 6 C12')
+check('C14', 'model-based testing: Hypothesis-generated invocation histories over a scratch directory with a file-content model',
+      'Operation sequences (write accepted/rejected sources, pre-create outputs, hexasm/xcmp with every argument shape, xrun, hexsim) run against the real executables; '
+      'after each step status, stderr, the named output (equal to the in-process compile of the same text) and every other file in the directory are checked against the model.',
+      'Acceptance of odd sources is decided by the library entry point in-process. xrun\'s a.bin is exempt.',
+      'DESIGN.md 6 C14')
+
 NOT_YET = {}
 
 def main():
